@@ -62,11 +62,28 @@ RECURSIVE FmtText(_)
 FmtText(items) == IF Len(items) = 0 THEN ""
                   ELSE (IF Head(items)[1] = "d" THEN "%" \o Head(items)[2] ELSE Head(items)[2]) \o FmtText(Tail(items))
 
+(* instants far outside 32 bits (years <= 0, far future), as <<day number, second of day>>: every month *)
+(* boundary and every 37th day of WideYears; Mode "wide" adds the pairs {d, s} of ExtraFile            *)
+WideYears == {-200000, -100001, -100000, -9999, -4713, -1001, -1000, -401, -400, -399, -101, -100, -99, -5, -4, -3, -1,
+              0, 1, 4, 99, 100, 400, 999, 1000, 1582, 1600, 1899, 1900, 1901, 2038, 2039, 2100, 2400, 9999, 10000,
+              99999, 100000, 200000}
+WidePiece(y) ==
+    UNION {{<<DayOfJan1(y) + DaysBeforeMonth(y, m) - 1, 86399>>, <<DayOfJan1(y) + DaysBeforeMonth(y, m), 0>>,
+            <<DayOfJan1(y) + DaysBeforeMonth(y, m), 1>>, <<DayOfJan1(y) + DaysBeforeMonth(y, m), 43200>>,
+            <<DayOfJan1(y) + DaysBeforeMonth(y, m) + 27, 86340 + m>>} : m \in 1..12}
+    \cup {<<DayOfJan1(y) + 37 * k, 3661 * k>> : k \in 0..9}
+WideExtra == IF Mode = "wide" /\ ExtraFile # "" THEN LET d == ndJsonDeserialize(ExtraFile) IN {<<d[i].d, d[i].s>> : i \in 1..Len(d)}
+             ELSE {}
+
 Init == st = <<"root">>
 Next == \/ /\ st[1] = "root" /\ Mode = "fmt"
            /\ \E i \in 1..Len(Bound), k \in 1..Len(FmtDirs) : st' = <<"fmt", i, k>>
-        \/ /\ st[1] = "root" /\ Mode # "fmt"
+        \/ /\ st[1] = "root" /\ Mode \in {"mc", "gen"}
            /\ \E y \in {0} \cup Years : st' = <<"chunk", y>>
+        \/ /\ st[1] = "root" /\ Mode \in {"mc", "wide"}
+           /\ \E y \in WideYears : st' = <<"wchunk", y>>
+        \/ /\ st[1] = "wchunk"
+           /\ \E x \in WidePiece(st[2]) \cup (IF st[2] = 0 THEN WideExtra ELSE {}) : st' = <<"w", x[1], x[2]>>
         \/ /\ st[1] = "chunk"
            /\ \E x \in (IF Mode = "mc" THEN MCPiece(st[2]) ELSE GenPiece(st[2])) : st' = <<"t", x>>
 Spec == Init /\ [][Next]_st
@@ -78,6 +95,9 @@ Offsets == {0, 18000, -34200}
 
 RoundTrip == (Mode = "mc" /\ IsT) => \A off \in Offsets :
     LET f == Fields(t, off) IN ValidFields(f) /\ SecondsOf(f, off) = t
+
+WideLaw == (Mode = "mc" /\ st[1] = "w") => \A off \in Offsets :
+    LET f == FieldsW(st[2], st[3], off) IN ValidFields(f) /\ SecondsOfW(f, off) = <<st[2], st[3]>>
 
 (* the next second is the successor in calendar order *)
 Succ(f) ==
@@ -101,7 +121,8 @@ Civil(days) ==
         d == doy - ((153 * mp + 2) \div 5) + 1
         m == IF mp < 10 THEN mp + 3 ELSE mp - 9
     IN <<yoe + era * 400 + (IF m <= 2 THEN 1 ELSE 0), m, d>>
-CivilLaw == (Mode = "mc" /\ IsT) => LET f == Fields(t, 0) IN Civil(t \div 86400) = <<f.year, f.month, f.day>>
+CivilLaw == /\ (Mode = "mc" /\ IsT) => LET f == Fields(t, 0) IN Civil(t \div 86400) = <<f.year, f.month, f.day>>
+            /\ (Mode = "mc" /\ st[1] = "w") => LET f == FieldsW(st[2], st[3], 0) IN Civil(st[2]) = <<f.year, f.month, f.day>>
 
 AnchorLaw == (Mode = "mc" /\ IsT) =>
     /\ t = 0 => (Fields(t, 0) = [year |-> 1970, month |-> 1, day |-> 1, hour |-> 0, min |-> 0, sec |-> 0,
@@ -139,6 +160,12 @@ GenPrint ==
              comps |-> [i \in 1..Len(Comps) |-> [items |-> Comps[i], out |-> Strftime(Comps[i], lf, Offset, ZoneName)]],
              back |-> SecondsOf(lf, Offset),
              noon |-> SecondsOf([lf EXCEPT !.hour = 12, !.min = 0, !.sec = 0], Offset)]))
+
+WidePrint ==
+    (Mode = "wide" /\ st[1] = "w") =>
+        LET lf == FieldsW(st[2], st[3], Offset) IN
+        PrintT("GEN " \o ToJson([d |-> st[2], s |-> st[3], lf |-> lf, uf |-> FieldsW(st[2], st[3], 0),
+                                 back |-> SecondsOfW(lf, Offset)]))
 
 FmtPrint ==
     (Mode = "fmt" /\ st[1] = "fmt") =>
